@@ -449,3 +449,74 @@ M("C09.event_batch_clear(reverse of fix 43294a4)", ["C09"], "emitter/file/src/li
         self.remaining_bytes = 0;
         self.index = 0;""",
   """        self.bufs.clear();""", "C09.R5")
+
+# ---- C10 -------------------------------------------------------------------------------------------
+M("C10.sync_result_ignored", ["C10", "C07"], "emitter/file/src/lib.rs",
+  """        file.file
+            .sync_all()
+            .map_err(|e| emit_batcher::BatchError::no_retry(e))?;""",
+  """        let _ = file.file.sync_all();""", ["C10.R1", "C07.R5"])
+M("C10.active_file_before_sync", ["C10"], "emitter/file/src/lib.rs",
+  """        file.file
+            .flush()
+            .map_err(|e| emit_batcher::BatchError::no_retry(e))?;
+        file.file
+            .sync_all()
+            .map_err(|e| emit_batcher::BatchError::no_retry(e))?;""",
+  """        file.file
+            .flush()
+            .map_err(|e| emit_batcher::BatchError::no_retry(e))?;
+        if file.file.sync_all().is_err() {
+            self.active_file = Some(file);
+            return Err(emit_batcher::BatchError::no_retry(io::Error::new(io::ErrorKind::Other, "sync")));
+        }""", "C10.R2")
+M("C10.flag_reset_before_write", ["C10"], "emitter/file/src/lib.rs",
+  """        self.file_size_bytes += event_buf.len();
+        self.file.write_all(event_buf)?;
+
+        self.file_needs_recovery = false;""",
+  """        self.file_size_bytes += event_buf.len();
+        self.file_needs_recovery = false;
+        self.file.write_all(event_buf)?;
+""", "C10.R4")
+M("C10.open_new_without_create_new", ["C10"], "emitter/file/src/lib.rs",
+  ".create_new(true)", ".create(true)", "C10.R5")
+M("C10.reuse_without_recovery", ["C10"], "emitter/file/src/lib.rs",
+  "            file_needs_recovery: true,", "            file_needs_recovery: false,", "C10.R4:try_open_reuse")
+M("C10.no_sync_parent", ["C10"], "emitter/file/src/lib.rs",
+  "        fs.sync_parent(file_path)?;", "        let _ = &fs;", "C10.R5:sync_parent")
+
+# ---- C12 -------------------------------------------------------------------------------------------
+M("C12.double_pop(reverse of fix 6bba6ea)", ["C12"], "emitter/otlp/src/client.rs",
+  """                            return Err(e.map_retryable(|r| r.map(|_| channel)));
+                        }
+                    }
+                }""",
+  """                            return Err(e.map_retryable(|r| r.map(|_| channel)));
+                        }
+                    }
+
+                    channel.requests.pop();
+                }""", "C12.R1")
+M("C12.err_pops_failed_request", ["C12"], "emitter/otlp/src/client.rs",
+  """                        Err(e) => {
+                            return Err(e.map_retryable(|r| r.map(|_| channel)));""",
+  """                        Err(e) => {
+                            channel.requests.pop();
+                            return Err(e.map_retryable(|r| r.map(|_| channel)));""", "C12.R1")
+M("C12.http_success_lt_400", ["C12"], "emitter/otlp/src/client.rs",
+  "if status >= 200 && status < 300 {", "if status >= 200 && status < 400 {", "C12.R5")
+M("C12.grpc_success_any", ["C12"], "emitter/otlp/src/client.rs",
+  "                            if status == 0 {", "                            if status <= 1 {", "C12.R5")
+M("C12.transport_error_not_retryable", ["C12"], "emitter/otlp/src/client.rs",
+  "                return Err(BatchError::retry(err, ()));", "                return Err(BatchError::no_retry(err));", "C12.R6")
+M("C12.push_skips_event_on_new_request", ["C12"], "emitter/otlp/src/client.rs",
+  """            let mut request = EncodedScopeItems::new();
+            request.push(item.event);
+
+            self.requests.push(request);""",
+  """            let request = EncodedScopeItems::new();
+
+            self.requests.push(request);
+            self.requests.last_mut().unwrap().push(item.event);
+            if false { return; }""", "C12.NONE") if False else None
